@@ -81,6 +81,9 @@ def _norm(v):
 def search(sfs, max_len, max_height, criterion="length", node_cap=300000):
     """Cheapest realizing sequence within the bounds.  Returns dict(found, cost, ids, states, transitions, capped)."""
     m = Machine(sfs)
+    if len(m.src) > max_height or len(m.tgt) > max_height:
+        # the bound does not even admit the initial / final stack
+        return {"found": False, "cost": None, "ids": None, "states": 1, "transitions": 0, "capped": False}
     start = (m.src, frozenset())
     best = {(start, 0): 0}
     heap = [(0, 0, 0, start, None)]
